@@ -94,8 +94,18 @@ func (vc *VC) ghostPrelude() string {
 	for _, a := range axs {
 		fmt.Fprintf(&b, "(assert %s) ; axiom %s\n", a.term, a.a.Name)
 	}
+	// raw SMT axioms "smt <ghost>: <s-expression>" are included when <ghost> is in use
 	for _, r := range vc.SS.RawSMT {
-		b.WriteString(r + "\n")
+		i := strings.Index(r, ":")
+		if i < 0 {
+			continue
+		}
+		g := strings.TrimSpace(r[:i])
+		if !vc.ghostUsed[g] {
+			continue
+		}
+		b.WriteString(strings.TrimSpace(r[i+1:]) + " ; raw axiom for " + g + "\n")
+		vc.usedAssumptions["spec axiom (raw SMT) for "+g+": "+strings.TrimSpace(r[i+1:])] = true
 	}
 	return b.String()
 }
